@@ -3,7 +3,10 @@
 
 mod cdigest;
 mod core;
+mod bus;
 mod gprog;
+mod opsat;
+mod pipe;
 mod props;
 mod tree;
 mod uni;
@@ -52,6 +55,10 @@ fn main() {
     println!("psim property={} tier={} VERIF_SEED={}", prop, tier.name(), seed);
     let code = match prop.as_str() {
         "C02" => props::c02::main(&ctx),
+        "C03" => props::c03::main(&ctx),
+        "C09" => props::c10::main(&ctx, true),
+        "C10" => props::c10::main(&ctx, false),
+        "C18" => props::c18::main(&ctx),
         _ => {
             eprintln!("unknown property {prop}");
             2
